@@ -21,6 +21,7 @@ import (
 	tmproto "github.com/cometbft/cometbft/proto/tendermint/types"
 	sdk "github.com/cosmos/cosmos-sdk/types"
 	channeltypes "github.com/cosmos/ibc-go/v7/modules/core/04-channel/types"
+	porttypes "github.com/cosmos/ibc-go/v7/modules/core/05-port/types"
 )
 
 const c17Channel = "channel-7"
@@ -172,6 +173,56 @@ func (w *c17World) readersUnlisted(id uint64) {
 	p, _ := try(func() { _, err = w.app.MarketKeeper.CalcAssetPrice(w.ctx, id, sdk.NewInt(1)) })
 	w.tr.Line("feed.reader", "calc", u(id), "false", outcome(p, err == nil))
 	w.tr.Count("reader:calc-unlisted:" + outcome(p, err == nil))
+}
+
+// noise delivers one malformed / foreign packet or proposal through the real handlers; the band state and the stored results must not move
+func (w *c17World) noise(ibc porttypes.IBCModule, reqID int64) {
+	ctx, app := w.ctx, w.app
+	fake := uint64(reqID + 1000)
+	calldata := obi.MustEncode(bandtypes.FetchPriceCallData{Symbols: []string{"A"}, Multiplier: 1000000})
+	goodReq := packet.NewOracleRequestPacketData(bandtypes.FetchPriceClientIDKey, 12, calldata, 1, 1, sdk.NewCoins(), 1, 1)
+	okAck := channeltypes.NewResultAcknowledgement(bandtypes.ModuleCdc.MustMarshalJSON(packet.NewOracleRequestPacketAcknowledgement(fake)))
+	mk := func(data []byte) channeltypes.Packet {
+		return channeltypes.Packet{SourceChannel: c17Channel, DestinationChannel: c17Channel, Data: data}
+	}
+	kind := ""
+	switch w.rng.Intn(8) {
+	case 0:
+		kind = "ack:error-acknowledgement"
+		e := channeltypes.NewErrorAcknowledgement(fmt.Errorf("oracle script failed"))
+		_ = ibc.OnAcknowledgementPacket(ctx, mk(bandtypes.ModuleCdc.MustMarshalJSON(&goodReq)), bandtypes.ModuleCdc.MustMarshalJSON(&e), nil)
+	case 1:
+		kind = "ack:foreign-client-id"
+		rp := packet.NewOracleRequestPacketData("someone_else", 12, calldata, 1, 1, sdk.NewCoins(), 1, 1)
+		_ = ibc.OnAcknowledgementPacket(ctx, mk(bandtypes.ModuleCdc.MustMarshalJSON(&rp)), bandtypes.ModuleCdc.MustMarshalJSON(&okAck), nil)
+	case 2:
+		kind = "ack:undecodable-request"
+		_ = ibc.OnAcknowledgementPacket(ctx, mk([]byte("{")), bandtypes.ModuleCdc.MustMarshalJSON(&okAck), nil)
+	case 3:
+		kind = "ack:undecodable-calldata"
+		rp := packet.NewOracleRequestPacketData(bandtypes.FetchPriceClientIDKey, 12, []byte{1}, 1, 1, sdk.NewCoins(), 1, 1)
+		_ = ibc.OnAcknowledgementPacket(ctx, mk(bandtypes.ModuleCdc.MustMarshalJSON(&rp)), bandtypes.ModuleCdc.MustMarshalJSON(&okAck), nil)
+	case 4:
+		kind = "resp:foreign-client-id"
+		resp := packet.OracleResponsePacketData{ClientID: "someone_else", RequestID: fake, AnsCount: 1, ResolveStatus: 1,
+			Result: obi.MustEncode(bandtypes.FetchPriceResult{Rates: []uint64{1, 2, 3}})}
+		ibc.OnRecvPacket(ctx, mk(bandtypes.ModuleCdc.MustMarshalJSON(&resp)), nil)
+	case 5:
+		kind = "resp:undecodable-result"
+		resp := packet.OracleResponsePacketData{ClientID: bandtypes.FetchPriceClientIDKey, RequestID: fake, AnsCount: 1, ResolveStatus: 1, Result: []byte{0, 0, 0, 9, 1}}
+		ibc.OnRecvPacket(ctx, mk(bandtypes.ModuleCdc.MustMarshalJSON(&resp)), nil)
+	case 6:
+		kind = "resp:undecodable-packet"
+		ibc.OnRecvPacket(ctx, mk([]byte("{")), nil)
+	default:
+		kind = "proposal:foreign-content"
+		if err := bandoracle.NewFetchPriceHandler(app.BandoracleKeeper)(ctx, &assettypes.AddAssetsProposal{Title: "x", Description: "x"}); err == nil {
+			w.t.Fatal("the fetch-price route accepted a foreign proposal")
+		}
+	}
+	_, err := app.BandoracleKeeper.GetFetchPriceResult(ctx, bandtypes.OracleRequestID(fake))
+	w.tr.Line("feed.noise", kind, c17BandState(app, ctx), fmt.Sprint(err == nil), c17Books(app, ctx))
+	w.tr.Count("noise:" + kind)
 }
 
 type c17Plan struct {
@@ -387,6 +438,10 @@ func c17FeedSequence(t *testing.T, tr *Trace, rng *Rng, plan c17Plan, steps int)
 			} else {
 				tr.Count("feed:ack-without-response")
 			}
+		}
+		// malformed stream: packets and proposals that must change nothing (no request counts as acknowledged, no result is stored)
+		if !plan.corpus && rng.Chance(6) {
+			w.noise(ibc, reqID)
 		}
 		// the block: begin-blockers in the order of the app (bandoracle, then market)
 		dbBefore := app.BandoracleKeeper.GetDiscardData(ctx).DiscardBool
